@@ -1,11 +1,12 @@
 """C15 — a change to anything a served resource depends on reaches that resource."""
 import vlib
+from props import lbcgen
 
 PROP = "C15"
 PROPS_FILES = ["Nic/Props/C15.lean"]
 HARNESS = "vh-k8s"
 PARALLEL = 8
-RULE = ("every reference-bearing position of every served resource kind, exhaustively: VirtualServer (TLS secret, upstream service, backup "
+RULE = ("(refs) every reference-bearing position of every served resource kind, exhaustively: VirtualServer (TLS secret, upstream service, backup "
         "service, ClusterIP upstream, DoS reference in spec and route, each of the 7 secret/App-Protect carrying Policy kinds in spec and in a "
         "route), VirtualServerRoute attached to a VirtualServer (upstream, backup, subroute DoS, each Policy kind in a subroute; route in the "
         "VirtualServer's namespace and in another one), Ingress and minion of a mergeable Ingress (TLS, backend, default backend, JWT and "
@@ -13,7 +14,10 @@ RULE = ("every reference-bearing position of every served resource kind, exhaust
         "a namespace-qualified reference, and for Policy positions a list naming two same-named Policies of different namespaces. For each case "
         "the harness admits the resource into the real Configuration, runs the real create*Ex with recording listers / secret store / App Protect "
         "configuration, and asks the real reverse lookups (FindResourcesFor*, getPoliciesForSecret, getWAFPoliciesForAppProtect*) for every object "
-        "that was consulted. Non-trivial: every case (each consults at least one object).")
+        "that was consulted. (lbc) store mutations (Services, EndpointSlices, Secrets of 5 types, Policies of 7 kinds, Ingresses, VirtualServers, "
+        "TransportServers, ConfigMap) delivered through the real event handlers, the real work queue and the real sync of a LoadBalancerController built by its "
+        "real constructor over a recording nginx.Manager: after every burst the files of every served resource are compared, item by item, with a fresh "
+        "regeneration from the current stores. Non-trivial: every case (each consults at least one object / writes at least one file).")
 TRUSTED = ["recording wrappers around the listers, the secret store and the App Protect configuration (harness code, verif tag)",
            "DoS protected resources are resolved through a concrete type that cannot be wrapped: the declared reference is checked instead of a recorded lookup"]
 ASSUMPTIONS = ["the composition of reverse lookups performed by the sync handlers (secret -> policy -> resource, App Protect -> WAF policy -> resource) "
@@ -59,6 +63,32 @@ def gen(rng, tier):
         if ns:
             line += " vsrns=" + ns
         cases.append(dict(line=line, tags=[kind, pos.split(".")[0], form]))
+    # end-to-end: store mutations delivered through the real event handlers and the real sync; after every burst each served
+    # resource's files are compared with a fresh regeneration from the current stores
+    m = 150 if tier == "quick" else 1500
+    for i in range(m):
+        plus = rng.below(2)
+        cases.append(dict(line=lbcgen.gen_case(rng, plus, 3 + rng.below(6), faults=False, batchy=(i % 4 == 0)), tags=["lbc", "plus" if plus else "oss"]))
+    # one dependency changed or deleted at a time, for each kind of dependency and each way of depending on it
+    base = ("+s1/0&+s2/0&+e1.0/s1/a&+e1.1/s1/b&+e2.0/s2/a&+k1/htpasswd/0&+k2/jwk/0&+k3/apikey/0&+k4/ca/0&+k5/tls/0&+p1/basic/k1/0&+p2/jwt/k2/0&"
+            "+p3/apikey/k3/0&+p4/rl/_/0&+p5/emtls/k4/0&+p6/imtls/k4/0&+v1/s1/0/pol=p6/tls=k5&+v2/s1/0/rpol=%s&+i1/s2/0/basic=k1&+i2/s1/0%s&+t1/s2/0")
+    changes = ["+e1.0/s1/a+c", "-e1.0", "-e1.1", "+e2.0/s2/_", "-e2.0", "+s1/1", "-s1", "-s2", "+k1/htpasswd/1", "-k1", "+k2/jwk/1", "-k2", "+k3/apikey/1", "-k3",
+               "+k4/ca/1", "-k4", "+k5/tls/1", "-k5", "+p1/basic/k1/1", "-p1", "+p2/jwt/k2/1", "-p2", "+p3/apikey/k3/1", "-p3", "+p4/rl/_/1", "-p4",
+               "+p5/emtls/k4/1", "-p5", "+p6/imtls/k4/1", "-p6", "+k1/bad/1"]
+    for plus in (0, 1):
+        for rpol in ["p1", "p3", "p4", "p5"] + (["p2"] if plus else []):
+            b = base % (rpol, "/jwt=k2" if plus else "")
+            for ch in changes:
+                if tier == "quick" and (len(ch) + len(rpol) + plus + ord(ch[2])) % 2:
+                    continue
+                # the change alone, then undone / re-added, then inside a batch
+                redo = ch[1:] if ch.startswith("-") else None
+                seq = [ch]
+                if redo:
+                    orig = [t for t in b.split("&") if t.startswith("+" + redo + "/")]
+                    seq += orig[:1]
+                cases.append(dict(line="lbc plus=%d dssl=1 rf=_ af=_ bursts=%s;%s" % (plus, b, ";".join(seq)), tags=["lbc", "single-dependency"]))
+                cases.append(dict(line="lbc plus=%d dssl=1 rf=_ af=_ bursts=%s;+e3.0/s3/a&%s&+e3.1/s3/b&+e3.2/s3/c" % (plus, b, ch), tags=["lbc", "dependency-in-batch"]))
     return cases
 
 
@@ -83,9 +113,23 @@ def sec(o):
     return dict((x.split("=", 1) + [""])[:2] for x in o.split("#") if "=" in x)
 
 
+def driver_line(case, impl):
+    if case["line"].startswith("lbc ") and impl and not impl.startswith("CRASH"):
+        return case["line"] + " trace=" + impl
+    return case["line"]
+
+
 def judge(case, impl, model, spec):
     if impl is None or model is None:
         return dict(corr="missing output")
+    if case["line"].startswith("lbc "):
+        if impl.startswith("CRASH") or impl.startswith("setup") or spec is None:
+            return dict(corr="harness: " + impl[:200])
+        r = dict(nontrivial="S|" in impl)
+        mine = [c for c in spec.split(";") if ":stale:" in c]
+        if mine:
+            r["spec"] = mine[0]
+        return r
     if impl.startswith("setup="):
         return dict(corr="fixture not served: " + impl)
     d, m = sec(impl), sec(model)
